@@ -82,6 +82,7 @@ type fnExec struct {
 	// current block context
 	curR      Term
 	sentinels []string
+	lemmasUsed map[string]bool
 	st        *State
 	live      bool
 	entry     *State
